@@ -427,7 +427,8 @@ class DynamicResource(Resource):
 
             part = _requote_path(part)
             formatter += part
-            pattern += re.escape(part)
+            # The pattern is matched against URL.path_safe, not the raw path.
+            pattern += re.escape(_path_safe(part))
 
         try:
             compiled = re.compile(pattern)
@@ -478,7 +479,9 @@ class PrefixResource(AbstractResource):
         assert prefix in ("", "/") or not prefix.endswith("/"), prefix
         super().__init__(name=name)
         self._prefix = _requote_path(prefix)
-        self._prefix2 = self._prefix + "/"
+        # The form of the prefix that is matched against URL.path_safe.
+        self._prefix_safe = _path_safe(self._prefix)
+        self._prefix2 = self._prefix_safe + "/"
 
     @property
     def canonical(self) -> str:
@@ -489,7 +492,8 @@ class PrefixResource(AbstractResource):
         assert not prefix.endswith("/")
         assert len(prefix) > 1
         self._prefix = prefix + self._prefix
-        self._prefix2 = self._prefix + "/"
+        self._prefix_safe = _path_safe(self._prefix)
+        self._prefix2 = self._prefix_safe + "/"
 
     def raw_match(self, prefix: str) -> bool:
         return False
@@ -607,7 +611,7 @@ class StaticResource(PrefixResource):
         if IS_WINDOWS:
             norm_path = norm_path.replace("\\", "/")
         # The prefix is stored quoted, while the path to match is not.
-        prefix = _path_safe(self._prefix)
+        prefix = self._prefix_safe
         if not norm_path.startswith(prefix + "/") and norm_path != prefix:
             return None, set()
 
